@@ -121,16 +121,16 @@ Qed.
 (* every compiled program, GIVEN the compiler's well-formedness theorem (compile_wf: C01/C20's
    obligation -- inputs refer to collected constants / strictly earlier units, control units inside
    the control array, field ranges) as an explicit hypothesis *)
-Lemma compiled_roundtrip_partial_l : forall T strict guard,
-  (forall p g, Graph.compile T strict guard p = Graph.Ok g -> graph_ok g = true) ->   (* compile_wf *)
+Lemma compiled_roundtrip_partial_l : forall (cmp : Graph.prog -> Graph.res Graph.graph),
+  (forall p g, cmp p = Graph.Ok g -> graph_ok g = true) ->   (* compile_wf *)
   forall f32 name pnames p g,
   (forall q, w32_ok (f32 q) = true) ->
-  Graph.compile T strict guard p = Graph.Ok g ->
+  cmp p = Graph.Ok g ->
   names_ok name pnames (zlen (Graph.gr_controls g)) = true ->
   exists d bs, to_sdef f32 name pnames g = Some d /\ wf_def d = true
                /\ write_def d = Some bs /\ parse_def bs = Ok d.
 Proof.
-  intros T strict guard compile_wf f32 name pnames p g Hf Hc Hn.
+  intros cmp compile_wf f32 name pnames p g Hf Hc Hn.
   apply to_sdef_roundtrip_l; try assumption. exact (compile_wf p g Hc).
 Qed.
 
